@@ -190,15 +190,22 @@ def theta_params(draw, kind, n_samples, n_treatments, D=None, values=None, table
     return {"kind": kind, "W": mat(n_samples, D), "V2": mat(n_treatments, D), "precision": prec, "table": table}
 
 
+def _mat(x, width=0):
+    """rows x D matrix from nested lists; an empty list of rows keeps the latent width of the sibling matrix"""
+    a = np.array(x, dtype=float)
+    return a.reshape(len(x), -1) if a.size else np.zeros((len(x), width))
+
+
 def build_theta(p):
+    D = max([len(r) for k in ("W", "V2", "V1") for r in p.get(k, [])] or [0])
     if p["kind"] == "additive":
         from batchie.models.sparse_combo import SparseDrugComboMCMCSample
 
         return SparseDrugComboMCMCSample(
-            W=np.array(p["W"], dtype=float).reshape(len(p["W"]), -1),
+            W=_mat(p["W"], D),
             W0=np.array(p["W0"], dtype=float),
-            V2=np.array(p["V2"], dtype=float).reshape(len(p["V2"]), -1),
-            V1=np.array(p["V1"], dtype=float).reshape(len(p["V1"]), -1),
+            V2=_mat(p["V2"], D),
+            V1=_mat(p["V1"], D),
             V0=np.array(p["V0"], dtype=float),
             alpha=float(p["alpha"]),
             precision=float(p["precision"]),
@@ -206,8 +213,8 @@ def build_theta(p):
     from batchie.models.sparse_combo_interaction import SparseDrugComboInteractionMCMCSample
 
     return SparseDrugComboInteractionMCMCSample(
-        W=np.array(p["W"], dtype=float).reshape(len(p["W"]), -1),
-        V2=np.array(p["V2"], dtype=float).reshape(len(p["V2"]), -1),
+        W=_mat(p["W"], D),
+        V2=_mat(p["V2"], D),
         precision=float(p["precision"]),
         single_effect_lookup={(int(c), int(t)): float(x) for c, t, x in p["table"]},
     )
